@@ -4,13 +4,13 @@
      Mode "struct": all instruction sequences up to length K with plain parameters and the
                     object-carrying argument lists (BFS);
      Mode "args":   one call-like instruction (after a fixed object-creating prefix when
-                    Prefixed) with every argument shape in ShapeLo..ShapeHi, every call target,
+                    Prefixed) with every argument shape in ShapeSet, every call target,
                     every parameter-table entry;
      Mode "rand":   -simulate, random instruction, random parameters, random shape per step;
      Mode "esc":    as "struct" but the objects carry names that need escaping in a string
                     literal (quote / backslash / newline) - a separate family.                *)
 EXTENDS ManifestAst, Json
-CONSTANTS Mode, K, ShapeLo, ShapeHi, Prefixed
+CONSTANTS Mode, K, ShapeSet, Prefixed, FamSet
 VARIABLES fam, pre, children, ins, st, blk
 vars == <<fam, pre, children, ins, st, blk>>
 Blocks == 48     \* Mode "args": the shapes are dealt to this many intermediate states (one per TLC worker at a time)
@@ -18,12 +18,12 @@ Rand == Mode = "rand"
 Rich == Mode \in {"args", "rand"}
 Pick(S) == IF Rand /\ S # {} THEN {RandomElement(S)} ELSE S
 P(n) == IF Rich THEN Pick(1..n) ELSE {1}
-ShapeChoices == IF Rand THEN {RandomElement(1..NShapes)} ELSE IF Mode = "args" THEN ShapeLo..ShapeHi ELSE {1}
+ShapeChoices == IF Rand THEN {RandomElement(1..NShapes)} ELSE IF Mode = "args" THEN ShapeSet ELSE {1}
 
 Headers == IF Rand THEN {<<"v1", 0, 0>>, <<"sys", 2, 0>>, <<"sys", 1, 0>>, <<"v2", 0, 0>>, <<"v2", 2, 0>>, <<"v2", 3, 0>>}
            ELSE {<<"v1", 0, 0>>, <<"sys", 2, 0>>, <<"v2", 2, 0>>}
 \* (the third component is unused; children = second component for v2, preallocated for sys)
-GInit == \E h \in Pick(Headers) :
+GInit == \E h \in Pick({x \in Headers : x[1] \in FamSet}) :
            /\ fam = h[1] /\ pre = (IF h[1] = "sys" THEN h[2] ELSE 0) /\ children = (IF h[1] = "v2" THEN h[2] ELSE 0)
            /\ ins = <<>> /\ st = St0(IF h[1] = "sys" THEN h[2] ELSE 0, IF h[1] = "v2" THEN h[2] ELSE 0) /\ blk = -1
 
@@ -133,9 +133,9 @@ NCallFunction == Free /\ Mode # "args" /\ \E i \in Pick(CandCallFunction) : Do(i
 NYield == Free /\ Mode # "args" /\ fam = "v2" /\ \E i \in Pick(CandYield) : Do(i)
 NRaw == Free /\ blk >= 0 /\ \E i \in CandRaw : Do(i)
 \* in "args" mode also walk the parameter tables of the non-call instructions once
-NParams == Mode = "args" /\ ~Prefixed /\ ins = <<>> /\ ShapeLo = 1 /\ blk = -1
+NParams == Mode = "args" /\ ~Prefixed /\ ins = <<>> /\ 1 \in ShapeSet /\ blk = -1
            /\ \E i \in CandTake \cup CandProofNew \cup CandAssert \cup CandAllocate \cup CandVerify : Do(i)
-NParamsB == Mode = "args" /\ Prefixed /\ Len(ins) = Len(PrefixIns) /\ ShapeLo = 1 /\ blk = -1
+NParamsB == Mode = "args" /\ Prefixed /\ Len(ins) = Len(PrefixIns) /\ 1 \in ShapeSet /\ blk = -1
            /\ \E i \in CandBucketOp : Do(i)
 \* -simulate: one random instruction class per step (otherwise every class would print)
 Classes == <<"take", "bucket", "proofnew", "proofop", "noarg", "assert", "alloc", "verify", "call", "call", "callf", "yield">>
@@ -156,8 +156,14 @@ GSpec == GInit /\ [][GNext]_vars
 
 \* ---- emission
 RotStyles == <<"plain", "uni", "unknown">>
+\* one-instruction manifests carry every naming style incl. the ones needing escapes (object
+\* class x style is a full product);
+\* longer ones the default names and one rotating style; the argument-shape family one style
+Rot == (Len(ins) + st.nb + 2 * st.np + 3 * st.nr + st.na)
 StylesFor == IF Mode = "esc" THEN EscapeStyles
-             ELSE {"default", RotStyles[((Len(ins) + st.nb + 2 * st.np + 3 * st.nr + st.na) % 3) + 1]}
+             ELSE IF Mode = "args" THEN {<<"default", "plain", "uni", "unknown">>[(Rot % 4) + 1]}
+             ELSE IF Len(ins) = 1 THEN NameStyles \cup EscapeStyles
+             ELSE {"default", RotStyles[(Rot % 3) + 1]}
 CaseOf(style) ==
   [fam |-> fam, pre |-> pre, children |-> children, blobs |-> 2 + (Len(ins) % 2), names |-> style,
    given |-> NameLists(st, IF style = "unknown" THEN "default" ELSE style), ins |-> ins,
